@@ -37,6 +37,10 @@ class HttpShard(ShardCMC):
         self.base_url = base_url.rstrip("/") + "/"
         super().__init__(shard_key, shard_spec)
         self.populate_minishard_dict()
+        # This shard is read-only: chunks are fetched from the minishards
+        # that were found in the shard index (populate_minishard_dict fills
+        # ro_minishard_dict, fetch_cmc_chunk consults minishard_dict).
+        self.minishard_dict = self.ro_minishard_dict
         assert self.can_read_cmc
 
     def file_exists(self, filepath):
